@@ -310,7 +310,7 @@ def run(chk):
     triples = [(r, s, d) for r in (1, 2) for s in (1, 2, 3) for d in range(1, 11)]
     if tier == 'quick':
         triples = triples[::3]
-    triples += [(0, 0, 0), (255, 255, 255)] + [(rnd.randrange(256), rnd.randrange(256), rnd.randrange(256)) for _ in range(10 if tier == 'quick' else 500)]
+    triples += [(0, 0, 0), (255, 255, 255)] + [(rnd.randrange(256), rnd.randrange(256), rnd.randrange(256)) for _ in range(10 if tier == 'quick' else 3000)]
     for t in triples:
         cases.append({'kind': 'reject', 'triple': list(t)})
     for reason in [0, 1, 2, 6, 255] + [rnd.randrange(256) for _ in range(2 if tier == 'quick' else 40)]:
